@@ -63,11 +63,27 @@ func c08Tx() *txdata {
 }
 
 // which (v, r, s) are accepted for a verifier with chain parameter p, and what is recovered from
-//verif:opt unwind=12 budget_s=900
+//verif:opt unwind=12 budget_s=900 split=14
 func H_C08_accepted_signature_values() {
-	p := c08Small()
+	// chain parameter and v from boundary values (a symbolic v goes through BitLen/Uint64, i.e. mixed
+	// integer/bit-vector reasoning no back end finishes); r and s stay arbitrary integers
+	ps := []int64{1}
+	if verifThorough() {
+		ps = []int64{0, 1, 29154}
+	}
+	pv := ps[verifCase(len(ps))]
+	p := big.NewInt(pv)
 	signer := NewSTDEIP155Signer(p)
 	d := c08Tx()
+	vs := []int64{26, 27, 28, 2*pv + 35, 2*pv + 36, 2*pv + 37, -1}
+	if verifThorough() {
+		vs = []int64{0, 1, 26, 27, 28, 29, 2*pv + 34, 2*pv + 35, 2*pv + 36, 2*pv + 37, 255, 256, 1 << 40, -1}
+	}
+	vv := vs[verifCase(len(vs))]
+	d.V = big.NewInt(vv)
+	if vv < 0 {
+		d.V = new(big.Int).Lsh(big.NewInt(1), 70) // wider than a machine word
+	}
 	c08Recs = 0
 	_, err := signer.Sender(d)
 	verifReach("returned")
